@@ -1,13 +1,10 @@
 /-
-  TE.Lemmas.SyncObj — object collectives on a whole group, `_sync_obj_states`, and the
-  shape of a column of `gathered_states`.
+  TE.Lemmas.SyncObj — object collectives on a whole group, `_sync_obj_states`,
+  `_sync_tensor_states`, and the shape of a column of `gathered_states`.
 -/
 import TE.Lemmas.SyncSend
 namespace TE.Sync
 open TE.Spec.Sync
-
-/-- the members' environments of an `n`-member group in a world of `gws`. -/
-def envOf (n gws : Nat) (dst : Option Nat) (junk : Nat → Q) (i : Nat) : Env := ⟨i, n, gws, dst, junk i⟩
 
 theorem yields_allGatherObj (g : List Nat) (n : Nat) (O : Nat → Obj) :
     Yields g ((List.range n).map fun i => allGatherObj (O i))
@@ -19,81 +16,79 @@ theorem yields_allGatherObj (g : List Nat) (n : Nat) (O : Nat → Obj) :
 
 /-! ### columns -/
 
-/-- a column whose first cells are `F 0 … F (n-1)`, followed by `back`. -/
-def colF (n : Nat) (F : Nat → TState) (back : List TState) : List TState := (List.range n).map F ++ back
+/-- a column whose cells are `F 0 … F (n-1)`. -/
+def colF (n : Nat) (F : Nat → TState) : List TState := (List.range n).map F
 
-theorem assignCol_append (front back vals : List TState) (h : vals.length = front.length) :
-    assignCol (front ++ back) vals = vals ++ back := by
-  induction front generalizing vals with
+theorem assignCol_full (col vals : List TState) (h : vals.length = col.length) :
+    assignCol col vals = vals := by
+  induction col generalizing vals with
   | nil =>
     cases vals with
-    | nil => cases back <;> rfl
+    | nil => rfl
     | cons v vs => simp at h
-  | cons c front ih =>
+  | cons c col ih =>
     cases vals with
     | nil => simp at h
     | cons v vs => simp [assignCol, ih vs (by simpa using h)]
 
-theorem replicate_split (n gws : Nat) (h : n ≤ gws) (c : TState) :
-    List.replicate gws c = colF n (fun _ => c) (List.replicate (gws - n) c) := by
-  simp only [colF]
-  rw [List.map_const', List.length_range, List.replicate_append_replicate, Nat.add_sub_cancel' h]
+/-- the column every member starts with: one placeholder per member of the group. -/
+def col0 (n : Nat) : List TState := List.replicate n placeholder
 
-/-- the column every member starts with. -/
-def col0 (gws : Nat) : List TState := List.replicate gws placeholder
+theorem col0_eq (n : Nat) : col0 n = colF n fun _ => placeholder := by
+  simp [col0, colF, List.map_const']
 
-/-- after a state has been synced, a receiving member holds the members' values in the first `n`
-    cells and placeholders in the surplus cells; a non-receiving member still holds placeholders. -/
-def colAfter (n gws : Nat) (dst : Option Nat) (V : Nat → TState) (i : Nat) : List TState :=
-  if receives dst i then colF n V (List.replicate (gws - n) placeholder) else col0 gws
+/-- after a state has been synced, a receiving member holds the members' values; a non-receiving
+    member still holds placeholders. -/
+def colAfter (n : Nat) (dst : Option Nat) (V : Nat → TState) (i : Nat) : List TState :=
+  if receives dst i then colF n V else col0 n
 
-theorem assignCol_col0 (n gws : Nat) (h : n ≤ gws) (V : Nat → TState) :
-    assignCol (col0 gws) ((List.range n).map V) = colF n V (List.replicate (gws - n) placeholder) := by
-  rw [col0, replicate_split n gws h, colF, assignCol_append _ _ _ (by simp)]
-  rfl
+theorem assignCol_col0 (n : Nat) (V : Nat → TState) :
+    assignCol (col0 n) ((List.range n).map V) = colF n V :=
+  assignCol_full _ _ (by simp [col0])
 
 /-- `_sync_obj_states`: ints and floats arrive as they were sent. -/
-theorem yields_syncObj (g : List Nat) (n gws : Nat) (dst : Option Nat) (junk : Nat → Q)
-    (hd : DstOk g dst) (hn : n ≤ gws) (O : Nat → Obj) :
-    Yields g ((List.range n).map fun i => syncObj (envOf n gws dst junk i) (O i) (col0 gws))
-      ((List.range n).map fun i => colAfter n gws dst (fun j => objState (O j)) i) := by
-  have hfin : finishObj (col0 gws) ((List.range n).map O) =
-      Prog.done (colF n (fun j => objState (O j)) (List.replicate (gws - n) placeholder)) := by
-    have hlen : ¬ ((List.range n).map O).length > (col0 gws).length := by simp [col0]; exact hn
+theorem yields_syncObj (g : List Nat) (n : Nat) (hg : IsGroup g n) (dst : Option Nat) (junk : Nat → Q)
+    (hd : DstIn n dst) (O : Nat → Obj) :
+    Yields g ((List.range n).map fun i => syncObj (envOf g n dst junk i) (O i) (col0 n))
+      ((List.range n).map fun i => colAfter n dst (fun j => objState (O j)) i) := by
+  have hfin : finishObj (col0 n) ((List.range n).map O) = Prog.done (colF n (fun j => objState (O j))) := by
+    have hlen : ¬ ((List.range n).map O).length > (col0 n).length := by simp [col0]
     simp only [finishObj, hlen, if_false, List.map_map]
-    rw [assignCol_col0 n gws hn]; rfl
+    rw [assignCol_col0 n]; rfl
   cases dst with
   | none =>
     simp only [syncObj, envOf]
     apply Yields.coll_map (H := fun _ => Resp.objs ((List.range n).map O))
     · exact exchange_allGatherObj g (List.range n) O
     · simp only [recvObjCol, hfin]
-      rw [List.map_congr_left (g := fun i => Prog.done (colAfter n gws none (fun j => objState (O j)) i))]
+      rw [List.map_congr_left (g := fun i => Prog.done (colAfter n none (fun j => objState (O j)) i))]
       · exact yields_done g (List.range n) _
       · intro i _; simp [colAfter, receives]
   | some d =>
-    simp only [syncObj, envOf]
+    have hdl : d < g.length := by rw [hg.len]; exact hd
+    obtain ⟨hget, hroot⟩ := rootOk_of_nodup g hg.nodup d hdl
+    simp only [syncObj, envOf, toGlobal, hget]
     apply Yields.coll_map (H := fun i => if i == d then Resp.objs ((List.range n).map O) else Resp.unit)
-    · exact exchange_gatherObj g d hd (List.range n) id (range_idx n) O
-    · rw [List.map_congr_left (g := fun i => Prog.done (colAfter n gws (some d) (fun j => objState (O j)) i))]
+    · exact exchange_gatherObj g d g[d] hroot (List.range n) id (range_idx n) O
+    · rw [List.map_congr_left (g := fun i => Prog.done (colAfter n (some d) (fun j => objState (O j)) i))]
       · exact yields_done g (List.range n) _
       · intro i _
         cases hid : i == d <;> simp [colAfter, receives, hid, recvObjCol, hfin]
 
 /-- `_sync_tensor_states` -/
-theorem yields_syncTensor (g : List Nat) (n gws : Nat) (dst : Option Nat) (junk : Nat → Q)
-    (hd : DstOk g dst) (hn : n ≤ gws) (T : Nat → Tensor) (dt : DType) (k : Nat) (hT : Sendable n T dt k) :
-    Yields g ((List.range n).map fun i => syncTensor (envOf n gws dst junk i) (T i) (col0 gws))
-      ((List.range n).map fun i => colAfter n gws dst (fun j => TState.tensor (T j)) i) := by
-  simp only [syncTensor, envOf]
-  apply Yields.bind_map (G := fun i => gathered n dst T i) (yields_sendTensors g n gws dst junk hd T dt k hT)
-  rw [List.map_congr_left (g := fun i => Prog.done (colAfter n gws dst (fun j => TState.tensor (T j)) i))]
+theorem yields_syncTensor (g : List Nat) (n : Nat) (hg : IsGroup g n) (dst : Option Nat) (junk : Nat → Q)
+    (hd : DstIn n dst) (T : Nat → Tensor) (dt : DType) (k : Nat) (hT : Sendable n T dt k) :
+    Yields g ((List.range n).map fun i => syncTensor (envOf g n dst junk i) (T i) (col0 n))
+      ((List.range n).map fun i => colAfter n dst (fun j => TState.tensor (T j)) i) := by
+  simp only [syncTensor]
+  apply Yields.bind_map (G := fun i => gathered n dst T i) (yields_sendTensors g n hg dst junk hd T dt k hT)
+  rw [List.map_congr_left (g := fun i => Prog.done (colAfter n dst (fun j => TState.tensor (T j)) i))]
   · exact yields_done g (List.range n) _
   · intro i _
-    have hlen : ¬ ((List.range n).map T).length > (col0 gws).length := by simp [col0]; exact hn
+    have hlen : ¬ ((List.range n).map T).length > (col0 n).length := by simp [col0]
     cases hr : receives dst i
     · simp [gathered, hr, syncTensorK, colAfter]
     · simp only [gathered, hr, if_true, allOf, syncTensorK, hlen, if_false, colAfter, List.map_map]
-      rw [assignCol_col0 n gws hn]; rfl
+      rw [assignCol_col0 n]; rfl
 
 end TE.Sync
